@@ -8,9 +8,10 @@ From Coq Require Import QArith Qminmax Qabs.
 From BT Require Import Base.Prelude Base.Rose Algo.Plot Spec.PC19.
 
 Record pcase := PC {
-  pc_par : params;
-  pc_tree : tree;        (* the shape before the call *)
-  pc_out : ctree         (* shape and (x, y) attributes after the call *)
+  pc_par : params;                    (* parameters of the first call *)
+  pc_tree : tree;                     (* the shape of the fresh tree before the first call *)
+  pc_steps : list (edit * params);    (* further calls on the same tree object: edit, then lay out *)
+  pc_out : ctree                      (* shape and (x, y) attributes after the last call *)
 }.
 
 (* literal helpers used by the emitter *)
@@ -36,8 +37,14 @@ Fixpoint agree (a b : ctree) : bool :=
 Fixpoint cnorm (a : ctree) : ctree :=
   match a with C x y ks => C (Qred x) (Qred y) (map cnorm ks) end.
 
+(* model: the first call on the fresh tree, then the further calls; the property is evaluated
+   on the implementation's coordinates after the last call, with the parameters of the last call
+   and the shape the tree has then *)
 Definition check_C19 (k : pcase) : nat :=
-  if negb (params_posb (pc_par k)) then F_SKIP else
+  if negb (forallb params_posb (pc_par k :: map snd (pc_steps k))) then F_SKIP else
   let out := cnorm (pc_out k) in
-  flag (negb (agree (reingold_tilford (pc_par k) (pc_tree k)) out)) F_DISAGREE
-  + flag (negb (prop_C19 tol (pc_par k) (pc_tree k) out)) F_PROPFAIL.
+  let st := run_steps (layout (pc_par k) (zero_d (pc_tree k))) (pc_steps k) in
+  let plast := last (map snd (pc_steps k)) (pc_par k) in
+  let tlast := tree_of_d (fst st) in
+  flag (negb (agree (snd st) out)) F_DISAGREE
+  + flag (negb (prop_C19 tol plast tlast out)) F_PROPFAIL.
